@@ -47,7 +47,11 @@ def clauses_c01(c, H):
                     c.reach("suppressed-no-engage")
                     c.prove("C01.2 stopped-only-default", True)
             L = last_call(it)
-            if L is None or L.kind == "default" or L.action == "done":
+            if L is not None and L.kind == "default" and L.action == "next_state" and meta[L.target]["kind"] == "must_finish":
+                # the default state itself sent the machine into a must_finish state: from here on the machine is
+                # inside a must_finish state again (sentence 1 of the statement exempts those from engage())
+                stopped = False
+            elif L is None or L.kind == "default" or L.action == "done":
                 stopped = True
             elif L.kind == "must_finish" and L.action in ("none",):
                 stopped = False
@@ -91,6 +95,11 @@ def clauses_c04(c, H):
         if it.raised:
             c.prove("C04.no-exception", False, info=dict(iteration=i, exc=it.raised))
             return
+        # (1) after an external done()/on_disable() no regular state runs until engage() is called *again*
+        if any_ext_stop(it) and (not engaged_in(it) or stop_after_engage(it)):
+            c.reach("external-stop-not-followed-by-engage")
+            c.prove("C04.1 nothing-regular-after-stop-until-engage", all(x.kind == "default" for x in it.calls),
+                    info=dict(iteration=i, ext=it.ext, calls=[x.name for x in it.calls]))
         L = last_call(it)
         run = running_after(it)
         is_exec, cur_attr, cur_nt = it.after
